@@ -1,4 +1,5 @@
 import Tulz.Proofs.Router
+import Tulz.Proofs.RouterIds
 /-
 C06 — SubjectRouter reaches exactly the observers whose key matches the pattern.
 
@@ -43,6 +44,14 @@ theorem C06_history_sorted (rm : ρ → String → Bool) (ops : List (Op ρ)) (t
     (h : run rm emptyRouter ops = some t) : Sorted t :=
   (run_invariant rm ops emptyRouter t sorted_emptyRouter h).1
 
+/-- each observer exactly once, for every history: on a fresh router, after any history in which every subscribe uses an
+id that was not used before (the ids are the model's names for the observer objects), no observer occurs twice in the
+delivery log of any notify -/
+theorem C06_history_once {α : Type} (rm : ρ → String → Bool) (ops : List (Op ρ)) (t : Node) (hfresh : FreshIds [] ops)
+    (h : run rm emptyRouter ops = some t) (p : List (Level ρ)) (a : α) : ((rNotify rm a p t).log.map (·.1)).Nodup := by
+  obtain ⟨hwf, hroot, _⟩ := C06_history rm ops t h
+  exact C06_notify_ids_once rm t hwf hroot (history_ids_nodup rm ops t hfresh h) p a
+
 /-! ### non-vacuity: a concrete history and tree satisfying the hypotheses -/
 
 namespace C06Example
@@ -73,6 +82,9 @@ example : ((rNotify rmAll () [.re (), .re ()] tree).log.map (·.1)).Nodup :=
   C06_notify_ids_once rmAll tree tree_wf rfl (by decide) _ _
 
 example : Sorted tree := C06_history_sorted rmAll ops tree reached
+
+example : ((rNotify rmAll "x" [.re (), .re ()] tree).log.map (·.1)).Nodup :=
+  C06_history_once rmAll ops tree (by simp [ops, FreshIds]) reached _ _
 
 end C06Example
 
